@@ -31,6 +31,6 @@ require (
 
 replace github.com/sboehler/knut => /repo
 
-replace github.com/sourcegraph/conc => /verif/shims/conc
+replace github.com/sourcegraph/conc => ../shims/conc
 
-replace golang.org/x/sync => /verif/shims/xsync
+replace golang.org/x/sync => ../shims/xsync
